@@ -128,12 +128,26 @@ async fn startup_udp<const N: usize>(config: &ServerConfig<SslConfig>, user_mana
                             match SessionCodec::<N>::decode(&codec, &mut src) {
                                 Ok(Some((content, peer_addr, session))) => {
                                     let key = session.client_session_id;
+                                    // an association whose task has ended (unresolvable or unreachable target) is replaced, never fatal for the service
+                                    if net_map.get(&key).is_some_and(|assoc| assoc.task.is_finished()) {
+                                        net_map.remove(&key);
+                                    }
                                     if let Some(assoc) = net_map.get_mut(&key) {
-                                        assoc.try_send((content, peer_addr, session)).await?
+                                        if let Err(e) = assoc.try_send((content, peer_addr, session)).await {
+                                            warn!("[udp] association closed; client={client_addr}, error={e}");
+                                            net_map.remove(&key);
+                                        }
                                     } else {
-                                        let assoc = UdpAssociateContext::create(&session, client_addr, tx.clone()).await?;
-                                        assoc.try_send((content, peer_addr, session)).await?;
-                                        net_map.insert(key, assoc);
+                                        match UdpAssociateContext::create(&session, client_addr, tx.clone()).await {
+                                            Ok(assoc) => {
+                                                if let Err(e) = assoc.try_send((content, peer_addr, session)).await {
+                                                    warn!("[udp] association closed; client={client_addr}, error={e}");
+                                                } else {
+                                                    net_map.insert(key, assoc);
+                                                }
+                                            }
+                                            Err(e) => error!("[udp] association failed; client={client_addr}, error={e}"),
+                                        }
                                     }
                                 }
                                 Ok(None) => {}
